@@ -55,6 +55,11 @@ def obligations():
         for cell in (True, False):
             o.append(Obl(f"C01.load.{f}.{'cell' if cell else 'nocell'}", "py", H, "load_units", [f"{f} read_as_traj", "mdtraj.utils.unit.in_units_of"], "2 frames x 2 atoms (restart: 1 frame), symbolic file contents",
                          "values reaching the Trajectory are the file's numbers in nm / ps / degrees", 120, params={"fmt": f, "cell": cell}))
+    o.append(Obl("C01.pdb.format_83", "py", "harness.c01_fmt", "format_83", ["mdtraj.formats.pdb.pdbfile._format_83"], "every multiple of 0.001 up to +-1e9: the function's branch regions from the solver, decided on the solver's boundary witnesses of each region",
+                 "the coordinate field is exactly 8 columns and reads back to the number within one unit of its last printed digit, or the save is refused", 120))
+    for st in ("orthogonal", "triclinic"):
+        o.append(Obl(f"C01.lammpstrj.parse_box.{st}", "py", "harness.c01_lammps", "parse_box", ["mdtraj.formats.lammpstrj.LAMMPSTrajectoryFile.parse_box"], "symbolic header numbers (bounds at least 20 apart, tilt factors within +-5)",
+                     "lengths and angles returned by the READER are those of the cell a = (lx,0,0), b = (xy,ly,0), c = (xz,yz,lz) of the LAMMPS manual: each angle is arccos of the right normalised dot product", 600, params={"style": st}))
     T = "harness.c01_text"
     enc = {"gro": ["mdtraj.formats.gro.GroTrajectoryFile.write", "_write_frame", "read", "_read_frame"], "mdcrd": ["mdtraj.formats.mdcrd.MDCRDTrajectoryFile.write", "read", "_read"],
            "xyz": ["mdtraj.formats.xyzfile.XYZTrajectoryFile.write", "read"], "lammpstrj": ["mdtraj.formats.lammpstrj.LAMMPSTrajectoryFile.write", "write_box", "read", "parse_box"],
